@@ -298,6 +298,11 @@ pub enum Obs {
     Harness(String),
 }
 
+fn hang_limit() -> Duration {
+    let s = std::env::var("SIM_C11_TIMEOUT_S").ok().and_then(|v| v.parse().ok()).unwrap_or(30);
+    Duration::from_secs(s)
+}
+
 pub fn observe(s: &Scn) -> Obs {
     let exe = match std::env::current_exe() {
         Ok(e) => e,
@@ -321,7 +326,7 @@ pub fn observe(s: &Scn) -> Obs {
         match ch.try_wait() {
             Ok(Some(st)) => break st,
             Ok(None) => {
-                if t0.elapsed() > Duration::from_secs(120) {
+                if t0.elapsed() > hang_limit() {
                     let _ = ch.kill();
                     let _ = ch.wait();
                     return Obs::Hang;
@@ -481,7 +486,7 @@ pub fn run(cfg: &Config) -> i32 {
             Obs::Err(l) => ("error-value", l.clone()),
             Obs::Crash(l) => ("CRASH", l.clone()),
             Obs::Panic => ("PANIC", "scenario panicked".into()),
-            Obs::Hang => ("HANG", "no exit within 120 s".into()),
+            Obs::Hang => ("HANG", "no exit within the per-scenario wall-clock limit (30 s by default)".into()),
             Obs::Harness(l) => ("harness", l.clone()),
         };
         *counts.entry(kind.to_string()).or_default() += 1;
@@ -523,13 +528,19 @@ pub fn run(cfg: &Config) -> i32 {
         println!("KNOWN-FINDING: property=C11 key={key} stack overflow (process abort) from depth {depth} on an 8 MiB stack: {desc}");
     }
     let mut vjson = J::Null;
+    // report a crash before a panic before a stall
+    violations.sort_by_key(|v| match v.1.as_str() {
+        "CRASH(signal)" => 0,
+        "PANIC" => 1,
+        _ => 2,
+    });
     if let Some((s, class, detail)) = violations.first() {
         let case = Case { prop: "C11".into(), shape: s.shape.clone(), depth: s.depth, api: s.api.clone(), gen: "grid".into(), ..Case::default() };
         // minimise: smallest depth (by bisection over the child observer) at which it still crashes
         let mut lo = 1usize;
         let mut hi = s.depth;
         let mut steps = 0u64;
-        while lo < hi && steps < 24 {
+        while lo < hi && steps < 24 && class != "HANG(watchdog)" {
             let mid = lo + (hi - lo) / 2;
             steps += 1;
             let o = observe(&Scn { shape: s.shape.clone(), depth: mid, api: s.api.clone() });
